@@ -208,6 +208,7 @@ pub struct Ctx {
     /// when set, only this group index is executed (crash reproduction)
     pub only_group: Option<u64>,
     pub journal: Option<std::fs::File>,
+    pub case_journal: Option<std::path::PathBuf>,
     pub group: u64,
 }
 
@@ -226,6 +227,7 @@ impl Ctx {
             verbose: false,
             only_group: None,
             journal: None,
+            case_journal: None,
             group: 0,
         }
     }
@@ -264,6 +266,16 @@ impl Ctx {
             let _ = f.write_all(line.as_bytes());
         }
         true
+    }
+    /// In crash-reproduction mode (a single group is re-run alone) every case is journalled
+    /// before it is executed, so that an abort / hang can be turned into a replayable case.
+    pub fn journal_case(&mut self, mk: &dyn Fn() -> Case) {
+        if self.only_group.is_none() {
+            return;
+        }
+        if let Some(p) = &self.case_journal {
+            let _ = std::fs::write(p, serde_json::to_string(&mk()).unwrap_or_default());
+        }
     }
     pub fn past_only_group(&self) -> bool {
         matches!(self.only_group, Some(g) if self.group > g)
